@@ -12,7 +12,12 @@
    reach below the level at which its production was entered, provided only productions outside the *computed* exception
    set are used.  The exception set of today's table is pinned by `utap_exceptions_known`. -/
 import UtapModel.Lemmas.C01
-import UtapModel.Model.C01Effect
+import UtapModel.Lemmas.C01PinA
+import UtapModel.Lemmas.C01PinB
+import UtapModel.Lemmas.C01PinC
+import UtapModel.Lemmas.C01PinD
+import UtapModel.Lemmas.C01PinE
+import UtapModel.Lemmas.C01PinF
 namespace UtapModel.C01
 open UtapModel.Gen.Grammar
 
@@ -34,12 +39,12 @@ theorem safe_of_locally_balanced {CB NT : Type} (G : List (Prod CB NT)) (sig : N
   have hlb := hG p hp
   simp only [lbProd, Bool.and_eq_true, decide_eq_true_eq] at hlb
   obtain ⟨⟨_, hdip⟩, hlb2⟩ := hlb
-  cases hci : checkItems sig eff (sig p.lhs).need (sig p.lhs).dip (sig p.lhs).lo 0 p.items (some Lin.zero) with
+  cases hci : checkItems sig eff (sig p.lhs).need (sig p.lhs).dip (sig p.lhs).lo 0 p.items (.rel Lin.zero) with
   | none => simp [hci] at hlb2
   | some stp =>
     simp only [hci] at hlb2
     obtain ⟨h', hrun', hnn, hsat, hpart⟩ :=
-      run_sound sig eff hG hwf hr (sig p.lhs).need (sig p.lhs).dip (sig p.lhs).lo h h (some Lin.zero) stp hci hentry hdip (by simp [Sat])
+      run_sound sig eff hG hwf hr (sig p.lhs).need (sig p.lhs).dip (sig p.lhs).lo h h (.rel Lin.zero) stp hci hentry hdip (by simp [Sat])
     refine ⟨h', hrun', hnn, hpart, ?_⟩
     intro hb c0 c1 hlo
     have := finalOk_bound hlb2 (hsat hb) c0 c1 hlo
@@ -53,18 +58,6 @@ example : ∃ (G : List (Prod Nat Nat)) (sig : Nat → Sig) (eff : Nat → Eff),
    by intro cb; by_cases h : cb = 0 <;> simp [h, Eff.wf, e]⟩
 
 /-! ## instance: today's parser.y -/
-
-def utapSig (s : Stack) (B : NT) : Sig := (sigOf B).get s
-def utapEff (s : Stack) (cb : CB) : Eff := effect cb s
-
-def prodOk (p : P) : Bool := Stack.all.all (fun s => lbProd (utapSig s) (utapEff s) p)
-
-/-- the productions that satisfy the obligation on every stack -/
-def utapGood : List P := prods.filter prodOk
-
-/-- **computed exception set**: (production id, stack) pairs that fail the obligation -/
-def utapExceptions : List (Nat × Stack) :=
-  prods.flatMap (fun p => (Stack.all.filter (fun s => !lbProd (utapSig s) (utapEff s) p)).map (fun s => (p.id, s)))
 
 /-- every row of the hand-written effect table is well formed (no callback removes more than it may touch) -/
 theorem effect_wf : ∀ (s : Stack) (cb : CB), (utapEff s cb).wf = true := by
@@ -81,55 +74,58 @@ theorem init_meets_entry : ∀ s : Stack, ((utapSig s startNT).need : Int) ≤ i
 
 /-- **C01, stack part (partial: outside the computed exception set).**  For every stack of the model, every callback
     trace of every complete, aborted or error-recovering derivation of the start symbol that uses only productions
-    outside `utapExceptions` is safe from the initial heights: no callback reaches below what is there. -/
+    that pass the obligation on that stack (i.e. outside `utapExceptions`) is safe from the initial heights: no callback reaches below what is there. -/
 theorem C01_stack_safety_partial (s : Stack) (part : Bool) (v : Nat) (tr : List (CallInst CB))
-    (hrun : RunNT utapGood part startNT v tr) :
+    (hrun : RunNT (utapGood s) part startNT v tr) :
     ∃ h', runH (utapEff s) (initHeight s) tr = some h' ∧ 0 ≤ h' := by
-  have hG : ∀ p ∈ utapGood, lbProd (utapSig s) (utapEff s) p = true := by
+  have hG : ∀ p ∈ utapGood s, lbProd (utapSig s) (utapEff s) p = true := by
     intro p hp
-    have := (List.mem_filter.mp hp).2
-    simp only [prodOk, List.all_eq_true] at this
-    exact this s (by cases s <;> simp [Stack.all])
+    exact (List.mem_filter.mp hp).2
   obtain ⟨h', h1, h2, _, _⟩ :=
-    safe_of_locally_balanced utapGood (utapSig s) (utapEff s) hG (effect_wf s) part startNT v tr hrun
+    safe_of_locally_balanced (utapGood s) (utapSig s) (utapEff s) hG (effect_wf s) part startNT v tr hrun
       (initHeight s) (init_meets_entry s)
   exact ⟨h', h1, h2⟩
 
 /-- the same for every nonterminal (every `xta_part_t` entry point starts at one of them) and any entry heights that
     meet the nonterminal's requirement; also: a run never ends below `entry - dip`. -/
 theorem C01_stack_safety_any_entry (s : Stack) (part : Bool) (B : NT) (v : Nat) (tr : List (CallInst CB))
-    (hrun : RunNT utapGood part B v tr) (h : Int) (hentry : ((utapSig s B).need : Int) ≤ h) :
+    (hrun : RunNT (utapGood s) part B v tr) (h : Int) (hentry : ((utapSig s B).need : Int) ≤ h) :
     ∃ h', runH (utapEff s) h tr = some h' ∧ 0 ≤ h' ∧ ((utapSig s B).lo.isSome → h - (utapSig s B).dip ≤ h') := by
-  have hG : ∀ p ∈ utapGood, lbProd (utapSig s) (utapEff s) p = true := by
+  have hG : ∀ p ∈ utapGood s, lbProd (utapSig s) (utapEff s) p = true := by
     intro p hp
-    have := (List.mem_filter.mp hp).2
-    simp only [prodOk, List.all_eq_true] at this
-    exact this s (by cases s <;> simp [Stack.all])
+    exact (List.mem_filter.mp hp).2
   obtain ⟨h', h1, h2, h3, _⟩ :=
-    safe_of_locally_balanced utapGood (utapSig s) (utapEff s) hG (effect_wf s) part B v tr hrun h hentry
+    safe_of_locally_balanced (utapGood s) (utapSig s) (utapEff s) hG (effect_wf s) part B v tr hrun h hentry
   exact ⟨h', h1, h2, h3⟩
 
--- non-vacuity: the good part of the table is almost all of it, and the start symbol has good productions
-example : utapGood.length + utapExceptions.length ≥ prods.length ∧ (utapGood.filter (fun p => p.lhs == startNT)).length ≥ 20 := by
+-- non-vacuity: on the operand stack all but one production are good, and every start alternative is
+example : (utapGood .F).length + 3 ≥ prods.length ∧ ((utapGood .F).filter (fun p => p.lhs == startNT)).length = 29 := by
   decide +kernel
 
 /-! ## the exception set of today's table, pinned -/
 
-/-- keys of the known offending shapes: (production name, stack).  Each is confirmed against the real library by a
-    witness input (checks/c01.py replays it under ASan) and listed in known_findings.d/C01.json. -/
-def knownExceptionKeys : List (String × Stack) := [
-  ("IfCondition#2", .F),
-  ("ArrayDecl2#3", .C),
-  ("StrategyAssignment#1", .Q)
-]
+/-- **today's exception set is within the known shapes** (`knownExceptionKeys`, Lemmas/C01Pin.lean): for every stack,
+    every production failing the obligation is one of the listed (production, stack) shapes.  Finite check over the
+    generated table by kernel evaluation (`pinned_*`, one lemma per stack). -/
+theorem utap_exceptions_known : ∀ s : Stack, pinnedOn s = true := by
+  intro s
+  cases s
+  · exact pinned_F
+  · exact pinned_T
+  · exact pinned_R
+  · exact pinned_S
+  · exact pinned_P
+  · exact pinned_C
+  · exact pinned_Q
+  · exact pinned_E
+  · exact pinned_M
+  · exact pinned_U
+  · exact pinned_G
+  · exact pinned_L
 
-def exceptionKeys : List (String × Stack) := utapExceptions.map (fun x => (prodKey x.1, x.2))
-
-/-- **today's exception set is within the known shapes** (finite check over the generated table, kernel evaluation). -/
-theorem utap_exceptions_known : exceptionKeys.all (fun k => knownExceptionKeys.contains k) = true := by
-  decide +kernel
-
-/-! ## witnesses: the model rejects the callback traces the real parser emits on the witness inputs -/
+/-! ## witnesses: the model rejects the callback traces the real parser emits on the witness inputs
+   (those that depend on a *generated* unguarded-dereference flag are stated under that flag, so that they stay true
+   when the guard is added to the source) -/
 
 /-- `void f(){ if () ; }`: IfCondition's error production pushes no condition, `if_end` reads `fragments[0]`. -/
 theorem C01_witness_if_end :
@@ -144,7 +140,17 @@ theorem C01_witness_types_counter :
 
 /-- `strategy s = control: A[] undeclared`: `property()` returns early without pushing a PropInfo,
     `strategy_declaration` takes `&properties.back()` of an empty list. -/
-theorem C01_witness_strategy_declaration :
+theorem C01_witness_strategy_declaration : ptrDeref .strategy_declaration .Q = true →
     runH (utapEff .Q) 0 [⟨.property, 0, true, 0⟩, ⟨.strategy_declaration, 0, false, 0⟩] = none := by decide
+
+/-- `trans X -> L0 { select i : int[0,1]; }` with undeclared `X`: `proc_edge_begin` fails (no edge is created),
+    `proc_select` dereferences the null `currentEdge`. -/
+theorem C01_witness_proc_select : ptrDeref .proc_select .E = true →
+    runH (utapEff .E) 0 [⟨.proc_edge_begin, 0, true, 0⟩, ⟨.proc_select, 0, false, 0⟩] = none := by decide
+
+/-- `parse_XTA("I", builder, newxta, S_INSTANCE_LINE)` on a fresh builder: `instance_name` dereferences the null
+    `currentInstanceLine`. -/
+theorem C01_witness_instance_name : ptrDeref .instance_name_false .L = true →
+    runH (utapEff .L) 0 [⟨.instance_name_false, 0, false, 0⟩] = none := by decide
 
 end UtapModel.C01
